@@ -270,7 +270,9 @@ pub enum Adapter {
 pub static SOCK_COUNTER: AtomicU64 = AtomicU64::new(0);
 
 pub fn sock_path() -> PathBuf {
-    let d = PathBuf::from(format!("{}/target/run/socks-{}", crate::runner::VERIF, std::process::id()));
+    // under the parent's run directory (removed by the parent when the batch ends)
+    let base = std::env::var("VSIM_RUN_DIR").unwrap_or_else(|_| format!("{}/target/run", crate::runner::VERIF));
+    let d = PathBuf::from(format!("{base}/socks-{}", std::process::id()));
     let _ = std::fs::create_dir_all(&d);
     d.join(format!("s{}", SOCK_COUNTER.fetch_add(1, Ordering::Relaxed)))
 }
